@@ -270,4 +270,9 @@ theorem stop_waits_for_loop_in_code : Generated.raftStopWaitsForLoop = true := b
 example : ∃ c', Step ⟨10, false, false, false⟩ (init [.conf, .watch, .conf]) c' :=
   no_wedge ⟨10, false, false, false⟩ (by decide) rfl rfl rfl _ (by decide) _ .refl (by simp [Quiescent, init])
 
+
+/-- proposing a replica change for a partition whose raft group is not loaded on this node returns an
+error (regenerated): the allocator's goroutine survives a member that proposes its own removal -/
+theorem replica_change_checks_group_loaded : Generated.replicaChangeChecksGroupLoaded = true := by decide
+
 end Anndb.C18
